@@ -83,6 +83,14 @@ def _manager_classes():
 
 class Bus(list):
     step = 0
+    CAP = 4000      # no generated history publishes anywhere near this
+
+    def append(self, item):
+        if len(self) >= self.CAP:
+            raise core.Abort('message-storm',
+                             'more than %d messages on the pub/sub channel: '
+                             'the hosts keep answering each other' % self.CAP)
+        super().append(item)
 
 
 class Host:
@@ -97,6 +105,7 @@ class Host:
                                **cluster.server_kwargs)
         self.sio = self.h.sio
         self.listener_ended = 0
+        self.died = False
         self.logged = []
         # the listener logs through server.logger
         self.sio.logger = _Log(self)
@@ -104,7 +113,17 @@ class Host:
     def consume(self, k):
         """Run the real listener loop over the next k unread messages."""
         self.mgr.take = k
+
+        def eos():
+            return len([1 for e in self.logged if e[0] == 'error' and
+                        'exited unexpectedly' in str(e[1])])
+        n0 = eos()
         self.h.do(self.mgr._thread())
+        if eos() != n0 + 1:
+            # the loop did not end because the stream ended (the harness's
+            # end-of-stream is the only legitimate way out): the listener
+            # of a real deployment would be dead from here on
+            self.died = True
         self.listener_ended += 1
         self.h.settle()
 
